@@ -133,9 +133,16 @@ func genErsWorld(r *rand.Rand, now time.Time) *ersWorld {
 		}
 		w.cat = append(w.cat, "settings")
 	}
-	// old daemonset migration
-	if r.Intn(6) == 0 {
-		eds.Annotations[edsv1.ExtendedDaemonSetOldDaemonsetAnnotationKey] = "old-ds"
+	// old daemonset migration; "withdrawn": the annotation has been removed from the EDS again, the
+	// replica sets still carry the copy made when they were created, the DaemonSet and its pods exist
+	mig := r.Intn(7)
+	withdrawn := mig == 1
+	if mig <= 1 {
+		if !withdrawn {
+			eds.Annotations[edsv1.ExtendedDaemonSetOldDaemonsetAnnotationKey] = "old-ds"
+		} else {
+			w.cat = append(w.cat, "old-daemonset-withdrawn")
+		}
 		ds := &appsv1.DaemonSet{ObjectMeta: metav1.ObjectMeta{Name: "old-ds", Namespace: pick(r, testNS, testNS, "ns2")}}
 		if r.Intn(3) != 0 {
 			ds.Spec.Selector = &metav1.LabelSelector{MatchLabels: map[string]string{"app": "agent"}}
@@ -221,6 +228,14 @@ func genErsWorld(r *rand.Rand, now time.Time) *ersWorld {
 		}
 	}
 	w.eds = eds
+	if len(w.dss) > 0 {
+		// the replica sets were created with a copy of the EDS's annotations
+		for _, e := range w.ers {
+			if withdrawn || r.Intn(2) == 0 {
+				e.Annotations[edsv1.ExtendedDaemonSetOldDaemonsetAnnotationKey] = "old-ds"
+			}
+		}
+	}
 	return w
 }
 
